@@ -1,5 +1,6 @@
 import Lean.Data.Json
 import UcantoModel.Model.Message
+import UcantoModel.Model.Did
 import UcantoModel.Model.Validator
 import UcantoModel.Model.Oracle
 import UcantoModel.Model.Server
@@ -148,7 +149,12 @@ def parseWorld (j : Json) : Except String Parsed := do
   }
   let d : Desc := {
     can := bytesOf dcan
-    readWith := fun s => if dwith == "did" then (if didPrefix.isPrefixOf s then some s else none) else some s
+    readWith := fun s =>
+      if dwith == "did" then (if didPrefix.isPrefixOf s then some s else none)
+      else if dwith == "libdid" then
+        -- `schema.DIDString()`: `did.Parse` must accept it; the value read is the DID printed back
+        (if didPrefix.isPrefixOf s then (DidM.parse s).map DidM.toString else none)
+      else some s
     readNb := fun nb => some (sortNb nb)
     derives := derivesOf dder
   }
